@@ -1289,7 +1289,7 @@ func permuted(r *hx.RNG, m *mSet) *mSet {
 	return p
 }
 
-const callLimit = 10 * time.Second
+const callLimit = 20 * time.Second
 
 func compileCase(run *hx.Run, r *hx.RNG, g *gen, repeats int) {
 	if skipCase(run, caseID) {
@@ -1782,59 +1782,90 @@ func storeSequence(run *hx.Run, r *hx.RNG, g *gen, steps int) {
 // storeWitnesses replays fixed write sequences on every run (DESIGN §2.6: the witness of a known
 // finding is run against the implementation each time).
 func storeWitnesses(run *hx.Run) {
-	names := []string{"b", "c", "d"}
+	type w struct {
+		k, name, item string
+		e             structs.ConfigEntry // nil = delete
+	}
 	px := &mProxy{proto: "http"}
 	sd1 := mService{name: "d", proto: "http"}
 	sp := mSplitter{"b", []mSplit{{10000, "d", ""}}}
 	rt := mRouter{"c", []mRoute{{pfx: "/x", dest: opts{svc: "b"}}}}
 	sd2 := mService{name: "d", proto: "grpc"}
-	type w struct {
-		k, name, item string
-		e             structs.ConfigEntry
+	rt2 := mRouter{"b", []mRoute{{pfx: "/x", dest: opts{svc: "c", subset: "v1"}}}}
+	rc := mResolver{name: "c", subsets: []mSubset{{"v1", 0}}, failover: []mFailover{{key: "v1", svc: "a", subset: "v2"}}}
+	ra := mResolver{name: "a", subsets: []mSubset{{"v2", 0}}}
+	seqs := []struct {
+		tag   string
+		names []string
+		ops   []w
+	}{
+		// accepted although chain c (router c -> splitter b -> d) then mixes http and grpc
+		{"witness:store-indirect-referrer-protocol", []string{"b", "c", "d"}, []w{
+			{"P", "global", px.enc(), px.real()},
+			{"D", "d", sd1.enc(), sd1.real()},
+			{"S", "b", sp.enc(), sp.real()},
+			{"R", "c", rt.enc(), rt.real()},
+			{"D", "d", sd2.enc(), sd2.real()},
+		}},
+		// accepted although chain b (router b -> c/v1 -> failover a/v2) then names a missing subset
+		{"witness:store-indirect-referrer-subset", []string{"a", "b", "c"}, []w{
+			{"P", "global", px.enc(), px.real()},
+			{"V", "a", ra.enc(false), ra.real()},
+			{"V", "c", rc.enc(false), rc.real()},
+			{"R", "b", rt2.enc(), rt2.real()},
+			{"V", "a", "", nil},
+		}},
 	}
-	seq := []w{
-		{"P", "global", px.enc(), px.real()},
-		{"D", "d", sd1.enc(), sd1.real()},
-		{"S", "b", sp.enc(), sp.real()},
-		{"R", "c", rt.enc(), rt.real()},
-		{"D", "d", sd2.enc(), sd2.real()}, // accepted although chain c (router c -> splitter b -> d) then mismatches
+	for si, sq := range seqs {
+		caseID = fmt.Sprintf("sw%d", si)
+		if skipCase(run, caseID) {
+			continue
+		}
+		t := &sut{s: state.NewStateStore(nil), idx: 10}
+		run.Line("reset", "ok")
+		replay := []string{"reset"}
+		before := t.chainsOK(sq.names)
+		for _, x := range sq.ops {
+			t.idx++
+			var op string
+			var f func() error
+			if x.e == nil {
+				op = "del " + x.k + " " + hx.EncS(x.name)
+				x := x
+				f = func() error {
+					return t.s.DeleteConfigEntry(t.idx, kindOf(x.k), x.name, structs.DefaultEnterpriseMetaInDefaultPartition())
+				}
+			} else {
+				if err := x.e.Normalize(); err != nil {
+					panic(err)
+				}
+				if err := x.e.Validate(); err != nil {
+					panic(err)
+				}
+				op = "put " + x.k + " " + x.item
+				x := x
+				f = func() error { return t.s.EnsureConfigEntry(t.idx, x.e) }
+			}
+			inflight(strings.Join(append(append([]string(nil), replay...), op), "\n"))
+			rech := t.rechecked(kindOf(x.k), x.name)
+			err := guarded(f)
+			res := "ok"
+			if err != nil {
+				res = "rejected"
+			}
+			run.Line(op, res)
+			replay = append(replay, op)
+			after := t.chainsOK(sq.names)
+			if err == nil {
+				reportBreaks(run, op, sq.names, before, after, rech, replay)
+			}
+			before = after
+		}
+		canonical, _ := t.dump()
+		run.Line("dump", canonical)
+		run.Tag(sq.tag)
+		run.Case(fmt.Sprint("store witness ", si), true)
 	}
-	caseID = "sw0"
-	if skipCase(run, caseID) {
-		return
-	}
-	t := &sut{s: state.NewStateStore(nil), idx: 10}
-	run.Line("reset", "ok")
-	replay := []string{"reset"}
-	before := t.chainsOK(names)
-	for _, x := range seq {
-		t.idx++
-		if err := x.e.Normalize(); err != nil {
-			panic(err)
-		}
-		if err := x.e.Validate(); err != nil {
-			panic(err)
-		}
-		op := "put " + x.k + " " + x.item
-		inflight(strings.Join(append(append([]string(nil), replay...), op), "\n"))
-		rech := t.rechecked(kindOf(x.k), x.name)
-		err := guarded(func() error { return t.s.EnsureConfigEntry(t.idx, x.e) })
-		res := "ok"
-		if err != nil {
-			res = "rejected"
-		}
-		run.Line(op, res)
-		replay = append(replay, op)
-		after := t.chainsOK(names)
-		if err == nil {
-			reportBreaks(run, op, names, before, after, rech, replay)
-		}
-		before = after
-	}
-	canonical, _ := t.dump()
-	run.Line("dump", canonical)
-	run.Tag("witness:store-indirect-referrer-protocol")
-	run.Case("store witness 0", true)
 }
 
 // ---------------------------------------------------------------- small-scope exhaustive enumeration
@@ -2041,7 +2072,7 @@ func supervise() bool {
 	var recs []string
 	var lastErr error
 	var tail strings.Builder
-	for attempt := 0; attempt < 6; attempt++ {
+	for attempt := 0; attempt < 5; attempt++ {
 		os.Remove(ip)
 		os.WriteFile(sp, []byte(strings.Join(recs, "\x02")), 0o644)
 		cmd := exec.Command(os.Args[0], os.Args[1:]...)
